@@ -213,6 +213,29 @@ Proof.
   - intro Hne. apply String.eqb_neq in Hne. rewrite Hne. reflexivity.
 Qed.
 
+(* a file selected with the option shadows ./config.yaml completely; without the option ./config.yaml is read *)
+Theorem selected_file_shadows_default :
+  forall envf tbl penv ext filel d1 d2,
+    load_files_with envf tbl penv (Some (ext, filel)) d1 = load_files_with envf tbl penv (Some (ext, filel)) d2
+    /\ (In ext viper_exts -> load_files_with envf tbl penv (Some (ext, filel)) d1 = load_with envf tbl penv filel)
+    /\ load_files_with envf tbl penv None (Some filel) = load_with envf tbl penv filel
+    /\ load_files_with envf tbl penv None None = load_with envf tbl penv [].
+Proof.
+  intros envf tbl penv ext filel d1 d2. repeat split.
+  intro Hin. unfold load_files_with.
+  destruct (selected_file_is_read envf tbl penv ext filel) as [Hsel _]. apply Hsel. exact Hin.
+Qed.
+
+Example selected_file_shadows_default_example :
+  load_files_model [("http.port", "int", "8080"); ("http.read_timeout", "int", "10")] []
+                   (Some ("yaml", [("http.port", "9001")]))
+                   (Some [("http.port", "9002"); ("http.read_timeout", "55")])
+  = Some [("http.port", "9001"); ("http.read_timeout", "10")]
+  /\ load_files_model [("http.port", "int", "8080"); ("http.read_timeout", "int", "10")] []
+                      None (Some [("http.port", "9002"); ("http.read_timeout", "55")])
+     = Some [("http.port", "9002"); ("http.read_timeout", "55")].
+Proof. vm_compute. split; reflexivity. Qed.
+
 Example selected_file_is_read_example :
   load_sel_model [("http.port", "int", "8080")] [] (Some (false, "yml", [("http.port", "9001")]))
   = Some [("http.port", "9001")]
